@@ -324,9 +324,9 @@ def model_inv(drv, inv, before, prog=None):
         rc, ev, fs = r.split(" ")
         rc = int(rc)
     events = [] if ev == "-" else ev.split("|")
-    if any("UNMOD" in e or "FUEL" in e for e in events):
-        return None
-    return {"rc": rc, "events": events, "fs": parse_fs(fs)}
+    # an Unmodelled step (non-ASCII stored name, buffer longer than a disk image) is a refusal in the model: the file
+    # system it returns is still what the earlier steps wrote; messages / exit status are not compared then
+    return {"rc": rc, "events": events, "fs": parse_fs(fs), "unmod": any("UNMOD" in e or "FUEL" in e for e in events)}
 
 
 def out_events(tool, out):
@@ -416,7 +416,8 @@ def judge_step(pid, drv, rep, inv, ob, newfiles, payload, prog=None, hist=None, 
         rep.violation("model driver failed: %s" % e, dict(payload, kind="case"), found_input=False)
         return False
     bump(rep, "traces_validated_against_impl")
-    if model is None:
+    unmod = model["unmod"]
+    if unmod:
         bump(rep, "unmodelled")
     for tgt, kind in targets.items():
         old = before[tgt][0] if tgt in before else None
@@ -455,6 +456,8 @@ def judge_step(pid, drv, rep, inv, ob, newfiles, payload, prog=None, hist=None, 
                 rep.violation("target %s not written and the user is not told why (rc=%s, stdout=%r)" % (tgt, ob["rc"], ob["out"][:120]),
                               dict(payload, kind="case", target=tgt))
                 ok = False
+            elif unmod:
+                pass
             elif old is None and model is not None and mnew is not None:
                 bump(rep, "disagreements_checked")
                 rep.violation("correspondence: model writes the new target %s, implementation refused: %r" % (tgt, ob["out"][:120]),
@@ -489,13 +492,13 @@ def judge_step(pid, drv, rep, inv, ob, newfiles, payload, prog=None, hist=None, 
                 rep.violation(why, dict(payload, kind="case", target=tgt))
                 ok = False
                 continue
-        if model is not None and mnew != new:
+        if model is not None and not unmod and mnew != new:
             bump(rep, "disagreements_checked")
             rep.violation("correspondence: bytes written to %s differ from the model's (%s)" % (tgt, "model refuses" if mnew == old else "both write"),
                           dict(payload, kind="case", target=tgt, relation="MVirtualFile.store/build_image = VirtualFile.save_virtual_file (byte-for-byte)"),
                           found_input=False)
             ok = False
-    if model is not None and ok:
+    if model is not None and ok and not unmod:
         me = model_event_classes(tool, model["events"])
         ie = out_events(tool, ob["out"])
         if tool == "futil" and inv.get("list"):
@@ -1128,7 +1131,7 @@ def c11_check(pid, drv, rep, case, obs, hist):
         # the guard RETURNS: a dsk switch after a refused cas switch is skipped silently — judged by the model only
         mod = model_inv(drv, inv, ob["before"], prog)
         bump(rep, "traces_validated_against_impl")
-        if mod is not None:
+        if mod is not None and not mod["unmod"]:
             same = all(mod["fs"].get(inv["targets"][k]) == ob["after"].get(inv["targets"][k], (None,))[0] for k in inv["kinds"])
             if not same or model_event_classes("asm", mod["events"]) != out_events("asm", ob["out"]):
                 bump(rep, "disagreements_checked")
